@@ -385,7 +385,7 @@ def compile_all(reqs, timeout=10.0, nworkers=None):
     return results
 
 
-def compile_req(id_, files, entry="entry.ts", string_formats=("f1", "f2"), number_formats=("n1", "n2"),
+def compile_req(id_, files, entry="entry.ts", string_formats=("f1", "f2"), number_formats=("n1", "n2", "f1"),
                 register=(), want_ir=False):
     return {"id": id_, "files": [[k, v] for k, v in files], "entry": entry, "register": list(register),
             "settings": {"string_formats": list(string_formats), "number_formats": list(number_formats)},
